@@ -11,6 +11,8 @@
 // After every record the stored history is dumped through the public accessors only:
 //   ch = current_history(), fwd / rev = indices visited by foreach_fwd / foreach_rev,
 //   S, Y (flattened, in foreach_fwd order), R = ρ, hist = history(), n = n().
+// apply / apply_masked are const: S, Y, R after them must be what they were before (the check compares R bit for bit
+// around every apply_masked).  The workspace α (incl. the NaN exclusion mark of apply_masked) is not dumped.
 #include <alpaqa/accelerators/lbfgs.hpp>
 #include <alpaqa/config/config.hpp>
 #include <memory>
